@@ -31,6 +31,7 @@ AXES = {
     'alf_store_samples': [True, False], 'nan': ['none', 'amps', 'similar', 'attrs', 'template'],
     'attrs': ['none', 'right', 'wrong_len', 'both'], 'spikeless': ['none', 'first', 'middle', 'last'],
     'dat_path_str': [False, True], 'alf_skew': [False, True],
+    'dtype_amps': ['float64', 'float32'], 'dtype_templates': ['float32', 'float64'], 'dtype_feat': ['float32', 'float64'],
 }
 RULE = ('Each case = one generated dataset directory (configuration vector over %d axes: %s) + random '
         'contents, loaded with the real load_model; every listed public attribute is compared with the '
